@@ -527,18 +527,12 @@ def paths(src=None, dst=None, dst_nets=None, block=None):
             paths = paths_src_dst(src_wire, dst_wire)
             # Remove empty paths...
             paths = list(filter(lambda x: len(x) > 0, paths))
-            # ...and those that are supersets of others (resulting from an inner loop).
+            # ...and those that come back to src_wire along the way (an inner loop).
+            # Note that a path may legitimately end with another, shorter path
+            # (reconvergent fan-out from src_wire), so a suffix test is not enough.
             if src_wire is not dst_wire:
-                paths = sorted(paths, key=lambda p: len(p), reverse=True)
-                keep = []
-                for i in range(len(paths)):
-                    # Check if there is a path in paths[i+1:] that is the suffix
-                    # of paths[i] (paths[i] is at least as large as each path in
-                    # paths[i+1:]). If so, paths[i] contains a loop since both start
-                    # at src_wire, so don't keep it.
-                    if not any(paths[i][-len(p):] == p for p in paths[i + 1:]):
-                        keep.append(paths[i])
-                paths = keep
+                paths = [p for p in paths
+                         if not any(d is src_wire for net in p for d in net.dests)]
             all_paths[src_wire][dst_wire] = paths
 
     return PathsResult(all_paths)
